@@ -121,6 +121,37 @@ def single_call(run, f, name):
     return calls[0]
 
 
+def entry_by_interp(f, name, renderer):
+    """interpret an entry point on opaque (self, backend, writer): list of deviations from `backend.renderer(self, writer)
+    exactly once, nothing else`; None when outside the interpreter's fragment"""
+    from ..interp import Interp, Opaque, Unsupported, Diverged
+    it = Interp(f)
+    it.free_opaque = True
+    it.max_depth = 6
+    seen = []
+    it.opaque_call = lambda e: (e.get("callee") or "") == renderer
+
+    def rec(it_, e, env, depth):
+        if (e.get("callee") or "") != renderer:
+            raise Unsupported("call %s" % (e.get("callee") or e.get("name")))
+        vals = ([it_.ev(e["recv"], env, depth)] if e.get("k") == "mcall" else []) + [it_.ev(a, env, depth) for a in e.get("args") or []]
+        seen.append([getattr(v, "tag", repr(v)) for v in vals])
+        return ()
+    it.unknown_call = rec
+    try:
+        it.call_fn(name, [Opaque("self"), Opaque("backend"), Opaque("writer")])
+    except (Unsupported, Diverged):
+        return None
+    bad = []
+    if len(seen) != 1:
+        bad.append("the renderer is called %d times" % len(seen))
+    elif seen[0] != ["backend", "self", "writer"]:
+        bad.append("the renderer is called with %s" % seen[0])
+    if it.out:
+        bad.append("text is written outside the renderer")
+    return bad
+
+
 def check_entry_points(run, f, cfg):
     b = {i["self_adt"]: i for i in f.trait_impls(QSB)}
     w = {i["self_adt"]: i for i in f.trait_impls(QSW)}
@@ -137,6 +168,12 @@ def check_entry_points(run, f, cfg):
             name = i["items"][item]
             fn = f.fn(name)
             pn = [p["pat"].get("name") for p in fn["params"]]
+            dec = entry_by_interp(f, name, QB + "::" + rend)
+            if dec is not None:
+                run.ob("C02.R3", "%s:%s" % (short, item), dec == [],
+                       "%s::%s (interpreted, forwarding through sibling entry points followed) reaches query_builder.%s(self, sql) exactly once and does nothing else%s" % (
+                           short, item, rend, "" if dec == [] else " - NOT: " + "; ".join(dec)), sp=fn["sp"], cfg=cfg)
+                continue
             c = single_call(run, f, name)
             ok = c is not None
             detail = None
